@@ -254,6 +254,16 @@ def run(ctx):
         p_, q_ = (rng.sample(pools[sp], 2) if rng.random() < 0.85
                   else [rng.choice(pools[sp])] * 2)
         f = AntiSymmetricTensor("f", (p_,), (q_,), rng.choice([0, 1]))
+        if rng.random() < 0.4:
+            # further Fock elements, chained with the first one (sharing an
+            # index) or independent
+            for _ in range(rng.randint(1, 2)):
+                cand = [x for x in pools[sp] if x not in (p_, q_)]
+                r_ = rng.choice(cand)
+                a_, b_ = rng.choice([(q_, r_), (r_, q_), (p_, r_),
+                                     (r_, rng.choice(cand))])
+                f = f * AntiSymmetricTensor("f", (a_,), (b_,), 1)
+                q_ = r_
         rest = G.random_term(rng, rng.randint(1, 2), pools,
                              names=["V", "t1", "t2", "X", "Y", "d"])
         term = G.random_coef(rng) * f * rest
@@ -273,6 +283,13 @@ def run(ctx):
             if "olynom" in repr(ex):
                 ctx.dist["diagonalize_fock:refused-polynom"] = \
                     ctx.dist.get("diagonalize_fock:refused-polynom", 0) + 1
+                continue
+            if "intersecting" in repr(ex):
+                # documented refusal: Fock elements with intersecting
+                # indices that can not be resolved
+                ctx.dist["diagonalize_fock:refused-intersecting"] = \
+                    ctx.dist.get("diagonalize_fock:refused-intersecting",
+                                 0) + 1
                 continue
             raise
         except Exception as ex:
